@@ -691,7 +691,7 @@ impl<S: PtpInstanceStateMutex + 'static> World<S> {
                             _ => json!(d.as_nanos() as u64),
                         }
                     };
-                    out.push(json!({"a": "T", "k": k, "d": class}));
+                    out.push(json!({"a": "T", "k": k, "d": class, "ns": d.as_nanos() as u64}));
                 }
                 RawAct::SendEvent(data, ll, ctx) => {
                     self.ctxs[p].push(Some(ctx));
